@@ -66,6 +66,9 @@ class Kernel:
             self.mocks[name] = mockhost.MockHost(ip, port, lambda r, n=name: self.handler(n, r), name=name)
         self.shim = shimmod.Shim(os.path.join(scratch, "shim"), runtime=runtime)   # no GPA_VERIF_DIR: the production map path is used
         self.shim.call("init", log_dir="/var/log/azure-proxy-agent", log_level="Trace")
+        # one start attempt that got as far as the start-up map updates and was then abandoned (the production retry loop creates a
+        # fresh object per attempt; on this kernel every real attempt fails at the kprobe attach): the live object below is the retry
+        self.failed_attempt = self.shim.call("bpf_failed_start_attempt", path=OBJ, local_port=3080)
         r = self.shim.call("bpf_load", path=OBJ)
         if "err" in r:
             self.unavailable = "BpfObject::from_ebpf_file failed: " + r["err"]
